@@ -36,7 +36,10 @@ pub fn replay(case: &J) -> J {
 // ---------------------------------------------------------------- impl -> spec
 pub fn sample_double(r: &mut Rng) -> f64 {
     loop {
-        let x = match r.below(12) {
+        let x = match r.below(13) {
+            // a few ulps either side of a whole number that ends in zeros (10, 1200, 30, 5e14 ...): shown with 15 digits these
+            // round to an integer, which is the one place where a numeral's own trailing zeros are significant
+            12 => { let m = (r.range(1, 9999) as f64) * 10f64.powi(r.range(1, 12) as i32); f64::from_bits((m.to_bits() as i64 + r.range(-3, 3)) as u64) }
             0 | 1 | 2 => f64::from_bits(r.next()),
             3 => { let k = r.range(-1074, 1023); let b = (2.0f64).powi(k as i32); f64::from_bits((b.to_bits() as i64 + r.range(-1, 1)) as u64) }
             4 => { let k = r.range(-320, 308); let b: f64 = format!("1e{}", k).parse().unwrap(); f64::from_bits((b.to_bits() as i64 + r.range(-2, 2)) as u64) }
@@ -132,6 +135,10 @@ pub fn record(seed: u64, n: usize, cli: Option<&str>) -> Vec<J> {
                 }
             }
         }
+    }
+    // hexadecimal digits that spell another prefix (0b.. inside 0x.., in both cases) and binary literals next to them
+    for text in ["0x10b1", "0x0b11", "+0x0b1", "0x10b", "0xa0b2", "0xdead0beef", "0x0B", "0xb0b", "0b101", "0x0b_0b", "0xe1", "0x1e3", "0x0b0B0b", "-0x0b1"] {
+        if text.len() > 2 { out.push(json!({"ev":"lit","text":text,"cs":chars_json(text.trim_start_matches('-')),"parsed":literal_bits(text)})); }
     }
     for i in 0..n {
         if i % 3 == 2 {
